@@ -1,5 +1,6 @@
 """C04 — certificates are accepted exactly when genuinely backed by a quorum (verification obligations as tables)."""
 from engine import query as Q
+from . import common
 from engine.terms import show, subterms
 from engine.guards import Atom, Walker, field_path, chain, Inliner
 from .c07 import loop_head
@@ -130,7 +131,7 @@ def rule_commit_qc_verify(ctx):
     keys = [T.args_of(c) for c in T.calls() if c["q"] == SCHED + "::keys"]
     okk = bool(keys) and bool(qs) and all(a[0] == qs[0][0] for a in keys)
     # the (message, key) pairs are selected by this QC's signer bitmap and carry this QC's message
-    fam = [f] + [g for g in ctx.F.fns if g.parent is not None and _root(g) is f]
+    fam = common.family(ctx, f, ("coroutine", "closure"), include_top=True)
     idx_ok = msg_ok = False
     for g in fam:
         Tg = ctx.T(g)
@@ -207,7 +208,7 @@ def add_table(ctx, R, q, dup_atom, consistent, verify_suffix):
         h = getattr(ctx.F, "helpers", {}).get(qname)
         if h is None or h.locals[0].s != "bool":
             return False
-        fam = [h] + [g for g in ctx.F.fns if g.parent is not None and _root(g) is h]
+        fam = common.family(ctx, h, ("coroutine", "closure"), include_top=True)
         return any(c["q"] == "std::ops::Index::index" and any(h2.ty(i).s.startswith("bit_vec::BitVec") for i in c["t"]["f"].get("ga", [])) for h2 in fam for c in ctx.T(h2).calls())
     muts = [c["bb"] for c in T.calls() if c["q"] == "bit_vec::BitVec::set" or c["q"] == AGG + "::add"]
     name = q.split("::")[-2]
